@@ -53,7 +53,7 @@ def run(pid, tier, seed, extra_model=None):
     if pid == "C03":
         scheds += directed.c03_family(tier) + directed.c01_family(tier)[::3]
     if pid == "C06":
-        scheds += directed.c06_gas_overflow_family()
+        scheds += directed.c06_gas_overflow_family() + directed.d14_family()
     if pid in ("C01", "C05", "C08"):
         scheds += directed.pool_expiry_family(tier)
     # the committed directed corpus rides along
